@@ -3,7 +3,7 @@ import ast
 
 from ..model import AnalysisError, dotted, unparse
 from ..structfmt import linform, lin_eq, local_defs
-from ..util import RAW_I, POS, FACTS, FACTS_I, U, enum_paths, walk_no_nested, is_yield_call, is_socket_recv
+from ..util import resolved_text, RAW_I, POS, FACTS, FACTS_I, U, enum_paths, walk_no_nested, is_yield_call, is_socket_recv
 from ..paths import call_attr, call_name
 from . import c01, c07
 from .c02 import io_raises
@@ -91,6 +91,7 @@ def r4(ctx):
     n += 1
     # expiry comparison on a value whose linear form is deadline - time.time()
     chk = None
+    weak_seen = False
     for c, t, i in RAW_I(ev[:w[0]]):
       node = ev[i].node
       if isinstance(node, ast.Compare) and len(node.ops) == 1:
@@ -103,12 +104,22 @@ def r4(ctx):
           if lin_eq(lf, {dl: 1, 'time.time()': -1}) and U(b) in ('0', '0.0'):
             op = type(node.ops[0])
             # not expired on this path?
-            live = {(ast.Lt, False, False): True, (ast.LtE, False, False): True, (ast.Gt, True, False): True, (ast.GtE, True, False): True,
-                    (ast.Gt, False, True): True, (ast.GtE, False, True): True, (ast.Lt, True, True): True, (ast.LtE, True, True): True}.get((op, t, flip), False)
+            # the timer hands out TimeoutError as soon as now >= deadline, so "still live" has to mean deadline - now > 0 strictly
+            live = {(ast.LtE, False, False): True, (ast.Gt, True, False): True,
+                    (ast.GtE, False, True): True, (ast.Lt, True, True): True}.get((op, t, flip), False)
+            weak = {(ast.Lt, False, False): True, (ast.GtE, True, False): True, (ast.Gt, False, True): True, (ast.LtE, True, True): True}.get((op, t, flip), False)
             if live:
               chk = i
+            elif weak:
+              weak_seen = True
+    # alternatively the transport reads the timed-out flag the timeout sink sets before it posts TimeoutError
+    flag = [i for c, t, i in fs if c.endswith('.Get()') and not t and 'Deadline.EVENT_KEY' in resolved_text(ev, i, ev[i].node)]
+    if chk is None and flag:
+      chk = flag[-1]
     ctx.ob('C12.R4', f, 'write dominated by "deadline - now" not expired', chk is not None,
-           'a path with a deadline reaches socket.write without an expiry comparison of deadline - time.time() against 0 (facts %s)' % [(a, b) for a, b, _ in fs], why)
+           ('the expiry test lets deadline - now == 0 through: the timer posts TimeoutError as soon as now >= deadline, so at now == deadline the caller has its '
+            'TimeoutError and the request is still written' if weak_seen else
+            'a path with a deadline reaches socket.write without an expiry comparison of deadline - time.time() against 0'), why)
     if chk is not None:
       ys = [U(e.node) for e in ev[chk:w[0]] if e.kind == 'call' and is_yield_call(e.node)]
       ctx.ob('C12.R4', f, 'no yield between the expiry check and the write', not ys, 'yielding calls between check and write: %s' % ys, why)
@@ -135,7 +146,7 @@ def r4(ctx):
   ctx.ob('C12.R4', ap, 'the transaction gets the deadline stored on the message', ok, 'deadline argument changed', why)
 
 
-def r5(ctx):
+def r5(ctx, backpressure=True):
   prog = ctx.prog
   sl = prog.func(MUX, 'MuxSocketTransportSink._SendLoop')
   ht = prog.func(MUX, 'MuxSocketTransportSink._HandleTimeout')
@@ -198,6 +209,14 @@ def r5(ctx):
         ctx.ob('C12.R5', sl, 'the checked properties belong to the frame that is written', okp, 'dequeue/check/write names disagree', why)
         other_sub = [i for i, e in enumerate(ev) if e.kind == 'call' and call_attr(e.node) in ('Subscribe', '_WatchTimeout') and i > w[0]]
         ctx.ob('C12.R5', sl, 'no timeout subscription after the write', not other_sub, 'subscription after the write at %s' % other_sub, why)
+    if w and hc and backpressure:
+      # the socket write may block on back-pressure before a single byte is accepted; the liveness check is only
+      # meaningful if it is made when the socket can take the frame: a wait-for-writable between dequeue and check
+      ww = [i for i, e in enumerate(ev[:hc[0]]) if e.kind == 'call' and (call_attr(e.node) in ('waitWritable', 'WaitWritable', 'wait_writable', 'wait_write')
+                                                                        or (call_name(e.node) or '').split('.')[-1] in ('wait_write', 'select'))]
+      ctx.ob('C12.R5', sl, 'frame liveness is checked only once the socket can take the frame (no blocking write after the check)', bool(ww),
+             'the timeout flag is tested and then socket.write() may block on back-pressure with zero bytes accepted: the call times out meanwhile and the whole frame goes out when the peer reads again',
+             'once the caller has TimeoutError no byte of the request may be written; a blocking write that starts after the check cannot be recalled')
     if skip:
       ctx.ob('C12.R5', sl, 'a timed-out frame is not written', not w and ex[0] in ('continue',), 'skip path writes %d, exit %s' % (len(w), ex[0]), why)
   ctx.floor('C12.R5', 'write paths of the send loop', nw, 1)
